@@ -191,11 +191,17 @@ def c16(ctx):
     V.mc(ctx, "MC_C16", cfg="MC_C16_thorough.cfg" if thorough else "MC_C16.cfg")
     summ = V.gen_traces(ctx, shards=12)
     V.validate(ctx, "Trace_C16", summ, V.default_sig, par=12)
+    # byte streams kept by Go's coverage-guided fuzzer while it drives the real Sync: judged like the others
+    rows, nrows = V.go_fuzz(ctx, "FuzzC16", 90 if thorough else 12, parallel=8)
+    if nrows:
+        summf = V.gen_traces(ctx, shards=8, name="trace-fuzz", extra=["-in", rows])
+        V.validate(ctx, "Trace_C16", summf, V.default_sig, par=8)
     return V.finish(ctx, "model_checking",
                     rule="MC: the read/unread/peek loop as a TLA+ state machine refines the declarative First(s) on every stream of length <= 6 (8 thorough) over {0x47,0x00,0x10,0x05,0x1F}. "
                          "B3: the real packet.Sync on every stream of length <= 6 (8) over the same alphabet (bufio 16-byte buffer and a minimal PeekScanner alternately) plus random long streams "
                          "dense in false sync bytes / reserved PIDs / headers cut by EOF through four reader kinds; TLC checks offset = First(s), bytes left in the reader = suffix from First(s), "
-                         "not-found error iff no plausible header. class = (reader, outcome, number of sync bytes, length bucket)",
+                         "not-found error iff no plausible header. The corpus Go's coverage-guided fuzzer accumulates while driving the real Sync (12 s quick / 90 s thorough) is judged the same way. "
+                         "class = (reader, outcome, number of sync bytes, length bucket)",
                     trace_module="Trace_C16", sigfn=V.default_sig,
                     assumptions=["TLC/SANY and the JVM", "Go's bufio.Reader and the harness's slice PeekScanner implement Peek/ReadByte/UnreadByte as documented",
                                  "the reader position after a not-found result is left unspecified (the property does not state it)"])
@@ -366,6 +372,11 @@ def c11(ctx):
     V.mc(ctx, "MC_C11", workers=12)
     summ = V.gen_traces(ctx, shards=12)
     V.validate(ctx, "Trace_C11", summ, V.default_sig, par=12)
+    # byte strings kept by Go's coverage-guided fuzzer while it drives NewPESHeader: judged when Pes!WellFormed accepts them
+    rows, nrows = V.go_fuzz(ctx, "FuzzC11", 90 if ctx.tier == "thorough" else 12, parallel=8)
+    if nrows:
+        summf = V.gen_traces(ctx, shards=8, name="trace-fuzz", extra=["-in", rows])
+        V.validate(ctx, "Trace_C11", summf, V.default_sig, par=8)
     return V.finish(ctx, "model_checking",
                     rule="MC: Ser and the decoder-side readings of Pes are inverse for all 256 stream ids x PTS_DTS_flags {0,2,3} x extra header bytes {0,1,3} x 4 timestamp values. "
                          "B3: NewPESHeader on generated PES starts for all 256 stream ids x flags x PES_header_data_length 0..255 (extra optional/stuffing bytes) x boundary timestamps x data sizes; "
@@ -385,6 +396,11 @@ def c12(ctx):
         V.apalache(ctx, "Apa_C12", "Init", inv, length=0, timeout=600)
     summ = V.gen_traces(ctx, shards=12)
     V.validate(ctx, "Trace_C12", summ, V.default_sig, par=12)
+    rows, nrows = V.go_fuzz(ctx, "FuzzC12", 90 if ctx.tier == "thorough" else 12, parallel=8)
+    if nrows:
+        summf = V.gen_traces(ctx, shards=8, name="trace-fuzz", extra=["-in", rows])
+        V.validate(ctx, "Trace_C12", summf, V.default_sig, par=8)
+
     return V.finish(ctx, "model_checking",
                     rule="MC: Ebp!Parse inverts the assembly of both flavours for all 256 flag bytes x grouping chains 1..3 x reserved tails 0..2, length byte included; the NTP conversion agrees with "
                          "integer arithmetic at era boundaries, rounding points and 45 random fractions. Apalache (Apa_C12, unbounded integers): for ALL instants of the representable range the era reading of the 32-bit "
